@@ -178,6 +178,7 @@ pub fn property() -> Property {
             name: "streams",
             rule: "see property rule",
             cases: (1_500_000, 8_000_000),
+            fuzz_decode: None,
             strategy,
             check,
             required_classes: &["completed", "substituted", "gse_len>=4000", "buffer==packet", "storage>pdu", "buffer>4097", "explicit-reuse", "explicit-reuse-without-label", "encap-err"],
